@@ -30,7 +30,7 @@ TraceInit ==
   /\ l = 1
   /\ poly = [p \in Parties |-> [c \in Coef |-> 1]]
   /\ fault = NoFault
-  /\ pc = [p \in Parties |-> "ok"]
+  /\ pc = [p \in Parties |-> "r0"]
   /\ x = [p \in Parties |-> 0]
   /\ bigX = [p \in Parties |-> <<>>]
   /\ y = [p \in Parties |-> 0]
